@@ -55,6 +55,14 @@ def main():
         if first is not None and not first.get('detected'):
             note = ' (missed by the first version of the check; strengthened)'
         out.append('| %s | %s (%s) | %s | %s%s |' % (sid, summ, files, conf, res, note))
+    rows = seeds()
+    n = len(rows)
+    conf = sum(1 for r in rows if r[3] == 'yes')
+    missed_first = sum(1 for r in rows if r[6] is not None and not r[6].get('detected'))
+    caught = sum(1 for r in rows if r[4] == 'caught')
+    out.append('')
+    out.append('Summary: %d seeded changes, %d confirmed against the current tree (the others are caught by the existing test suite on the current tree or no longer apply); '
+               '%d were missed by the quick check as it stood when the seed was made; after strengthening %d of %d are caught by the quick check of their property.' % (n, conf, missed_first, caught, n))
     text = '\n'.join(out) + '\n'
     p = os.path.join(VERIF, 'DESIGN.md')
     s = open(p).read()
